@@ -14,7 +14,14 @@ import os, json, struct
 import vlib
 
 LEVEL = "proof"
-MODEL_FIELDS = ("rc", "binn", "back", "back0", "bcl", "bclp", "ncl", "p", "t", "t2", "b", "b2")
+MODEL_FIELDS = ("rc", "binn", "back", "back0", "bcl", "bclp", "ncl", "p", "t", "t2", "b", "b2", "jt", "jb")
+# flag sets of the `pr` query: PRETTY = 1, CODEPOINTS = 2, PRETTY_INDENT2 = 5, PRETTY_INDENT4 = 9
+PR_FLAGS = (0, 1, 2, 3, 5, 7, 9, 11)
+PR_INDENT1 = (0, 1, 2, 3)
+# jbl_as_json ignores JBL_PRINT_PRETTY_INDENT2 / _INDENT4 (the tree printer honours them): a defect of the unmodified library
+# found by C14_print_agree_refuted (notes/jbinn.md, fixes/jbinn-print-indent.diff).  Measured and counted; judged as a violation
+# only with VERIF_C14_JUDGE_INDENT=1 (the deepening round had to exit 0 on the unchanged tree)
+JUDGE_INDENT = os.environ.get("VERIF_C14_JUDGE_INDENT") == "1"
 
 
 # ------------------------------------------------------------------------------------------------ values and dumps
@@ -1000,6 +1007,30 @@ def oracle(query, out):
                     bad.append("%s: expected %s, got %s" % (what, dump(exp)[:120], f[name][:120]))
         elif q[0] in ("mx", "mxc"):
             bad += mx_oracle(q, out)
+        elif q[0] == "pr":
+            doc = parse_dump(q[1])
+            if not in_scope(doc) or not (is_obj(doc) or isinstance(doc, list)) or any(0 in x for x in strings_of(doc)):
+                return bad
+            if f.get("rc") != "0":
+                return ["tree -> binary failed (%s) for a document with admissible keys" % f.get("rc")]
+            for pf in PR_FLAGS:
+                t, b = f.get("t%d" % pf), f.get("b%d" % pf)
+                if t is None or b is None:
+                    bad.append("print flags %d: a printer gave no answer" % pf)
+                elif pf in PR_INDENT1:
+                    if t != b:
+                        bad.append("tree and binary form print different texts under print flags %d: %s vs %s" % (pf, t[:120], b[:120]))
+                elif t == b:
+                    pass            # a library with fixes/jbinn-print-indent.diff applied
+                elif b == f.get("t%d" % (pf & 3)):
+                    # the binary printer ignores the indentation bits: its text is the tree's text under pf & 3 (known defect)
+                    KNOWN_HITS["jbl_as_json-ignores-indent"] = KNOWN_HITS.get("jbl_as_json-ignores-indent", 0) + 1
+                    if JUDGE_INDENT:
+                        bad.append("tree and binary form print different texts under print flags %d (JBL_PRINT_PRETTY_INDENT%d): "
+                                   "%s vs %s" % (pf, 2 if pf & 4 else 4, t[:120], b[:120]))
+                else:
+                    bad.append("binary form under print flags %d: neither the tree's text under %d nor under %d: %s" % (
+                        pf, pf, pf & 3, b[:120]))
         elif q[0] == "dec":
             exp = binn_value(q[1])
             if in_scope(exp) and f.get("rc") == "0" and not veq(exp, parse_dump(f["back"])):
@@ -1055,6 +1086,9 @@ def build_queries(run, mult):
         if kind == "plain" and (is_obj(doc) or isinstance(doc, list)) and rng.chance(1, 4):
             lines.append("dec " + binn_write(doc, rng).hex())
             run.dist("dec")
+        if kind in ("plain", "badkeys") and len(d) < 6000 and rng.chance(1, 2):
+            lines.append("pr " + d)
+            run.dist("pr")
         if kind in ("plain", "nul") and (is_obj(doc) or isinstance(doc, list)) and in_scope(doc) and len(d) < 6000 and (
                 quick or rng.chance(1, 3)):
             lines += matrix_queries(run, rng, doc, d)
@@ -1135,12 +1169,28 @@ def compare_matrix(q, out_i, out_m):
             bad.append("p")
         all_are("at", m.get("t"), "t"), all_are("at2", m.get("t2"), "t2")
         all_are("bat", m.get("b"), "b"), all_are("bat2", m.get("b2"), "b2")
+        if m.get("bget") is not None:
+            for ans, ps in cells.get("bget", []):
+                if ans != m["bget"] and not veq_bget(ans, m["bget"]):
+                    bad.append("bget[%s]" % ",".join(ps))
     else:
         for c in ("buf", "tb", "bcl", "bclp"):
             all_are(c, m.get("binn"), "binn")
         for c in ("dump", "n1", "n0", "it"):
             all_are(c, m.get("back"), "back")
         all_are("cl", m.get("ncl"), "ncl")
+        all_are("cnt", m.get("cnt"), "cnt")
+        all_are("it", m.get("it"), "it")
+        # printed texts: the tree producers against the model's tree printer (C13's as_json), the binary producers against
+        # the model's binn-walking printer (BinnAcc.print_binn)
+        for cons in ("js", "jsp"):
+            for ans, ps in cells.get(cons, []):
+                tb = [p for p in ps if p.startswith("T.")]
+                bb = [p for p in ps if p.startswith("B.")]
+                if tb and m.get("t" + cons) is not None and ans != m["t" + cons]:
+                    bad.append("t%s[%s]" % (cons, ",".join(tb)))
+                if bb and m.get("b" + cons) is not None and ans != m["b" + cons]:
+                    bad.append("b%s[%s]" % (cons, ",".join(bb)))
     return bad
 
 
@@ -1150,8 +1200,11 @@ def compare(out_i, out_m):
     if not b:
         return [] if out_i == out_m else ["<line>"]
     bad = []
+    if "g" in b and a.get("rc") in ("0", "CRE") and (a.get("rc") == "0") != (b["g"] == "1"):
+        bad.append("g")         # the executable guard wf && fits of the model against the encoder's accept / reject
+    pr = any(k[0] in "tb" and k[1:].isdigit() for k in b)
     for k, v in b.items():
-        if k not in MODEL_FIELDS:
+        if k not in MODEL_FIELDS and not (pr and k[0] in "tb" and k[1:].isdigit()):
             continue
         w = a.get(k)
         if w is not None and k in ("back", "back0", "bcl", "bclp") and w.startswith("ERR") and v.startswith("ERR"):
@@ -1228,8 +1281,9 @@ def check(run):
             run.notes.append("matrix cells not exercised in this run: " + ", ".join(empty[:20]))
     for k, n in KNOWN_HITS.items():
         run.dist("known-defect " + k, n)
-        run.notes.append("known defect of the unmodified library, measured in %d cells and not judged: %s (notes/jbinn.md, "
-                         "fixes/jbinn-get-borrowed-keys.diff)" % (n, k))
+        run.notes.append("known defect of the unmodified library, measured in %d answers and %s: %s (notes/jbinn.md, fixes/%s)" % (
+            n, "judged" if (k.startswith("jbl_as_json") and JUDGE_INDENT) else "not judged", k,
+            "jbinn-print-indent.diff" if k.startswith("jbl_as_json") else "jbinn-get-borrowed-keys.diff"))
     if mism:
         i, d = mism[0]
         fi, fm = fields(out_i[i] if i < len(out_i) else ""), fields(out_m[i] if i < len(out_m) else "")
